@@ -19,6 +19,7 @@ def make_event_router(
     local_entity_ids: frozenset[int],
     linked_entity_ids: frozenset[int],
     outbox: list[tuple[Event, Instant]],
+    foreign_entity_ids: frozenset[int] | None = None,
 ) -> Callable[[list[Event], Instant], list[Event]]:
     """Create a routing closure for a partition.
 
@@ -29,6 +30,12 @@ def make_event_router(
             from this partition.
         outbox: Mutable list where ``(event, send_time)`` tuples are appended
             for cross-partition events.
+        foreign_entity_ids: ``id()`` values of the entities declared in the
+            other partitions.  When given, a target that is declared in no
+            partition at all (the internal queue, driver or worker of a
+            composite component such as ``QueuedResource``) stays local to
+            the partition that emits to it; without it every unknown target
+            is an error.
 
     Returns:
         A callable ``(events, current_time) -> local_events``.
@@ -51,6 +58,9 @@ def make_event_router(
                 local.append(event)
             elif tid in linked_entity_ids:
                 outbox.append((event, current_time))
+            elif foreign_entity_ids is not None and tid not in foreign_entity_ids:
+                # Declared in no partition: an internal part of a local component
+                local.append(event)
             else:
                 target_name = getattr(target, "name", repr(target))
                 raise RuntimeError(
